@@ -290,11 +290,16 @@ class MerchantEngine:
                     )
                 continue
 
-            # If we get here and have a current rule, it might be an error
+            # Nothing recognised this line. Outside a rule that is an error too: a damaged first
+            # header ("Netflix]") or assignment ("is-large = ...") must not be skipped silently,
+            # taking the rule's match:/category: lines or the variable with it
             if current_rule is not None:
                 raise MerchantParseError(
                     f"Unexpected content in rule", line_num, line
                 )
+            raise MerchantParseError(
+                f"Unexpected content before the first rule", line_num, line
+            )
 
         # Save final rule
         if current_rule:
